@@ -445,9 +445,7 @@ def _get_iso_8601_week(
         ordinal -= days_in_year(year)
         year += 1
 
-    fmt = "%Y-%j"
-    string = f"{year}-{ordinal}"
-
-    dt = datetime.datetime.strptime(string, fmt)
+    # strptime("%Y-%j") only accepts four-digit years
+    dt = datetime.date(year, 1, 1) + datetime.timedelta(days=ordinal - 1)
 
     return {"year": dt.year, "month": dt.month, "day": dt.day}
